@@ -197,6 +197,8 @@ static int new_packet(int sk_fd, int can_socket) {
         }
 
         if (can_variant == AVTP_CAN_FD) {
+            // Flags belong to one message: do not carry them over to the next
+            frame.fd.flags = 0;
             if (Avtp_Can_GetBrs((Avtp_Can_t*)acf_pdu)) {
                 frame.fd.flags |= CANFD_BRS;
             }
